@@ -83,6 +83,15 @@ CHECKS.update({
     ),
 })
 
+CHECKS.update({
+    "C08": (
+        "Hypothesis parameterised-program generator + bind histories on one unbound object; differential oracle on all remaining-input rows vs reference with parameters set; frame invariant on the unbound object's AST",
+        "Programs with 1..3 Parameter[T] arguments are bound 2..4 times (permuted keywords, whole value domain, first binding repeated last); each bound function is compared on every assignment of the remaining arguments with the reference specialisation, equal bindings must give equal truth tables, the unbound AST and parameter table must never change, wrong parameter names/counts must raise. Sampled over programs and histories, exhaustive over remaining inputs.",
+        "Only rows on which the declared-width and the constant-width reading of a bound value agree are judged; parameters are not used as loop bounds or variable subscripts.",
+        "DESIGN.md section 3 C08",
+    ),
+})
+
 NOT_YET = "check not built yet in this session (work in progress; see DESIGN.md section 3)"
 
 
